@@ -20,14 +20,20 @@ chk("C11", "proof",
     "Coq proof (round-trip theorems) + extracted-model differential correspondence", "DESIGN.md §5 C11")
 
 chk("C14", "proof",
-    "Coq proof (all schedules, all inputs, all n) on an executable model of CachinKursawePetzoldShoupRBC of: FIFO order and no duplicate delivery on FIFO channels, "
-    "channel isolation of Deliver/DeliverFrom (also over every network schedule with Byzantine injection), counter recovery across setID/unsetID/recoverID; "
-    "machine-checked refutation of no-duplicate delivery on non-FIFO channels (known finding F8); quorum-intersection counting lemma proved, the full agreement/integrity "
-    "network invariant and liveness are NOT proved: they are checked by the oracle of the correspondence run on systematic (n=4,t=1) and randomized (n<=7) schedules of the real class. "
-    "The model is compared call by call with the real class on an in-memory transport with harness-owned scheduling (~125k calls per quick run).",
-    COMMON_NOTE + "Partial: agreement, integrity, delivery at quiescence are tested, not proved; real time-outs, Sync and OS buffering are not modelled; digests modelled as payloads.",
-    "Coq invariants over all schedules + extracted-model correspondence on in-memory transport", "DESIGN.md §5 C14, docs/C14.md")
-
+    "Coq proof (all n > 3t, every schedule incl. Byzantine injection, FIFO and non-FIFO) on an executable model of CachinKursawePetzoldShoupRBC of: agreement and integrity over the network model "
+    "(no two honest parties deliver different values for one (ID, sender, slot); an honest sender's slot is delivered only with the value it broadcast), FIFO order and no duplicate delivery on FIFO channels, "
+    "channel isolation of Deliver/DeliverFrom, k-fold counter recovery across setID/unsetID/recoverID, validity and totality at quiescence on the FIFO root channel; machine-checked refutations of "
+    "no-duplicate delivery on non-FIFO channels (F8) and of totality across channel switches (F10), both recorded known findings. The model is compared call by call with the real class on an in-memory "
+    "transport with harness-owned scheduling (~125k calls per quick run); an oracle checks all clauses on systematic (n=4,t=1) and randomized (n<=7) schedules of the real class.",
+    COMMON_NOTE + "Premises of the value statements: the digest function is injective, never 0 and never over-long on the run's values. Validity/totality with channel switches are tested, not proved; real time-outs, Sync and OS buffering are not modelled.",
+    "Coq invariants over all schedules (Bracha quorum argument) + extracted-model correspondence on in-memory transport", "DESIGN.md §0.2/§5 C14, docs/C14.md")
+chk("C16", "proof",
+    "Coq proof (no axioms) that the models of both library verifiers (threshold Schnorr incl. the range test 0 <= s < q added by fix c546d31, threshold DSS) return exactly the textbook verdict for all inputs; "
+    "that checked Schnorr shares combine to a valid signature; that the threshold DSS signing algebra yields a textbook-valid (r, s) for >= 2t+1 signers and any >= t+1 broadcast shares; that all honest outputs "
+    "are equal. Tied to the code by model-compared records (verifier boundary and congruent-value catalogue, Reconstruct, linear combinations from forked runs) and an implementation-level oracle: forked n-party "
+    "signing runs (incl. silent signers, bad reconstruction shares, deviations inside DSS::Sign steps 1d/2d) checked with a plain-GMP textbook verifier.",
+    COMMON_NOTE + "Premise of tdss_valid: each signer's VSS carries the right product; timing is outside the model (runs in which a library time-out expired are inconclusive and repeated); known finding dss-key-share-mismatch (CGJKR DKG drops a late-failing party from y but not from the shares).",
+    "Coq proof on executable model + extraction-based correspondence + forked-run oracle with scripted deviations", "DESIGN.md §0.2/§5 C16, docs/C16.md")
 chk("C19", "proof",
     "Coq proof of round-trip / shortest-form / consumption theorems for Radix-64 (all octet strings; alphabet proven equal to the tables regenerated from the header), CRC-24 checksum line, "
     "packet tags and all body-length forms incl. partial lengths, packet framing, MPIs and all 256 S2K counts, about a reference model written from the RFC 4880 text; tied to the code by "
@@ -81,6 +87,12 @@ for f in sorted(glob.glob(os.path.join(ROOT, "checks", "C*.py"))):
     d = _doc(pid)
     if not d or not d[0]:
         continue
+    NOTE_OVERRIDE = {
+        "C05": "Genuine defects found by the grid were fixed in /repo (see KNOWN_FINDINGS.txt fixed: lines for C05); known findings pedersen.m.plusq / pedersen.m.negfar (messages of PedersenCommitmentScheme::Verify unchecked). The random-oracle step is a named non-theorem.",
+        "C12": "Partial by nature: memory safety of the process is established by sanitizer/valgrind-backed differential testing in forked children, not by proof; the Coq part covers the modelled index/length logic only. All crashes found (SubpacketDecode wrap, CheckGroup SIGFPE, ...) are fixed in /repo.",
+    }
+    if pid in NOTE_OVERRIDE:
+        d = (d[0], NOTE_OVERRIDE[pid], d[2])
     lvl = re.search(r'^LEVEL\s*=\s*"(\w+)"', open(f).read(), re.M)
     chk(pid, lvl.group(1) if lvl else "proof", d[0], COMMON_NOTE + (d[1] or ""), d[2] or "Coq model + theorems + extracted-model correspondence",
         "DESIGN.md §5 %s, docs/%s.md" % (pid, pid))
